@@ -313,6 +313,33 @@ def handle (line : String) : String :=
         | some d => s!"diff {d}"
         | none => "ok"
     | _, _, _, _ => "skip parse"
+  | ["gov", alg, l, "panic"] => s!"specfail panic-in-gated-overlap alg={alg} l={l}"
+  | ["gov", alg, l, "second-run-hangs"] => s!"specfail second-run-hangs-while-a-transmission-is-in-progress alg={alg} l={l}"
+  | ["gov", _alg, _l, "not-blocked"] => "skip first-transmission-not-blocked"
+  | "gov" :: alg :: _l :: rest =>
+    -- a transmission to A is in progress, another run hands B its share (success), then A's transmission fails:
+    -- the copies kept afterwards plus the copies B got equal the copies held before, B is booked, A is not
+    let get (k : String) : Option String :=
+      (rest.find? (·.startsWith (k ++ "="))).map (fun f => (f.drop (k.length + 1)).toString)
+    match (get "before").bind (·.toNat?), get "toA", get "okA", get "toB", get "okB", (get "after").bind (·.toNat?), get "sent" with
+    | some before, some toA, some okA, some toB, some okB, some after, some sent =>
+      if okA != "false" || okB != "true" then "skip gated-overlap-answers"
+      else if alg == "binary" then
+        match toA.toNat?, toB.toNat? with
+        | some a, some b =>
+          if a != before / 2 then s!"specfail binary-split-not-half before={before} announced={a}"
+          else if b != (before - a) / 2 then s!"specfail binary-split-not-half before={before - a} announced={b}"
+          else if after + b != before then
+            s!"specfail binary-failure-not-restored-after-another-run before={before} toA={a} toB={b} after={after}"
+          else if sent != "2" then s!"specfail failed-peer-still-booked-after-another-run sent={sent}"
+          else "ok"
+        | _, _ => "skip parse"
+      else
+        if after + 1 != before then
+          s!"specfail spray-failure-returns-copy-after-another-run before={before} after={after}"
+        else if sent != "2" then s!"specfail failed-peer-still-booked-after-another-run sent={sent}"
+        else "ok"
+    | _, _, _, _, _, _, _ => "skip parse"
   | _ => "skip unknown-op"
 
 def main : IO Unit := run handle
